@@ -177,7 +177,11 @@ def check(case):
     else:
         if rb.ndim == 0 or len(rb.labels[0]) < 2:
             return r
+        # swap the first two labels and replace the last one by a label that neither operand had: another order AND another label set
         l0 = list(rb.labels[0]); l0[0], l0[1] = l0[1], l0[0]
+        fresh = D.EXTRA[sb["kinds"][0]]
+        if fresh not in l0 and (sb["dims"][0] not in ra.dims or fresh not in ra.labels[ra.dims.index(sb["dims"][0])]):
+            l0[-1] = fresh
         res = call(B.set_axis, D.np_labels(l0, sb["kinds"][0]), axis=0)
         if isinstance(res, Raised):
             return bad("b.set_axis({}, axis=0) raised {}".format(l0, res), klass="unexpected-exception")
